@@ -59,7 +59,8 @@ func init() {
 		"(time.Time).IsZero", "(time.Time).Equal", "time.Unix", "time.UnixMilli", "time.ParseDuration",
 		"github.com/redis/rueidis/internal/util.ToFloat64", "github.com/redis/rueidis/internal/util.ToFloat32",
 		"unicode/utf8.RuneCountInString", "unicode/utf8.ValidString", "bytes.Equal", "bytes.HasPrefix", "bytes.IndexByte",
-		"encoding/binary.littleEndian.Uint32", "encoding/binary.littleEndian.Uint64",
+		"(encoding/binary.littleEndian).Uint32", "(encoding/binary.littleEndian).Uint64", "(encoding/binary.bigEndian).Uint32", "(encoding/binary.bigEndian).Uint64",
+		"(encoding/binary.littleEndian).Uint16", "(encoding/binary.bigEndian).Uint16",
 		"(*net/url.URL).Query", "(net/url.Values).Get", "(net/url.Values).Has", "(*net/url.URL).Hostname", "(*net/url.URL).Port", "(*net/url.Userinfo).Username",
 		"(*net/url.Userinfo).Password", "net/url.Parse",
 		"errors.Is", "errors.As", "errors.Unwrap",
